@@ -1033,13 +1033,19 @@ class CodeGenerator(NodeVisitor):
             self.indent()
             self.write_commons()
             if block.required:
-                # A required block that ends up being rendered was not
-                # overridden by a descendant, whichever template of the
-                # chain declared it.
+                # A required block that ends up being the one rendered was
+                # not overridden by a descendant, whichever template of the
+                # chain declared it. Reached through super() from an
+                # override it renders nothing.
+                self.writeline(
+                    f"if context.blocks[{name!r}][0] is {block_func}:", block
+                )
+                self.indent()
                 self.writeline(
                     f'raise TemplateRuntimeError("Required block {name!r} not found")',
                     block,
                 )
+                self.outdent()
             # It's important that we do not make this frame a child of the
             # toplevel template.  This would cause a variety of
             # interesting issues with identifier tracking.
